@@ -23,36 +23,7 @@ def suffix(sfx):
     return lambda B, i, t: (callee_of(t) or '').endswith(sfx)
 
 
-def run(rep, F, ctx):
-    cg = CallGraph(F)
-    cg.prune_never_err()
-    M, ok_only = atomic.fail_atomic(rep, F, cg)
-    atomic.who_writes(rep, F, cg, engine.load_table('who_writes.json'))
-    atomic.who_calls(rep, F, cg, engine.load_table('who_calls.json'))
-    # cwd stays absolute: the only caller of set_cwd passes an abs() result
-    rep.rule('CWD-ABS', 'every argument of MemfsGuard::set_cwd originates from Memfs::_abs (so cwd stays a clean absolute path)')
-    n_cwd = 0
-    for n in cg.names():
-        B = cg.body(n)
-        for i, t in B.calls():
-            if (callee_of(t) or '').endswith('>::set_cwd') and F.bodies.get(callee_of(t), {}).get('impl_self', '').startswith('sys::fs::memfs::vfs::MemfsGuard'):
-                n_cwd += 1
-
-                def transparent(tt):
-                    c = callee_of(tt) or ''
-                    if c.endswith('Try>::branch') or c.endswith('Clone>::clone') or c.endswith('::to_path_buf') or c.endswith('::to_owned'):
-                        return [0]
-                    return None
-                roots = B.op_origins(t['args'][1], transparent)
-                calls = [callee_of(B.term(r[1])) for r in roots if r[0] == 'call']
-                import roles
-                absfn = roles.discover(F).get('memfs_abs', '')
-                bad = [r for r in roots if r[0] == 'arg'] + [c for c in calls if c != absfn]
-                ok = bool(calls) and not bad
-                rep.add('CWD-ABS', 'cwdabs:%s' % n, 'the path stored as cwd in %s comes from _abs' % n, ok, B.loc(i),
-                        '' if ok else 'set_cwd receives a path that is not an _abs result (%s): cwd may become relative or unclean' % bad)
-    rep.floor('CWD-ABS', 'set_cwd call sites', n_cwd, 1)
-
+def pair_rules(rep, F, cg, M):
     rep.rule('PAIR', 'in each bookkeeping function, every path from index update A to a normal completion (or, for removals, every path to A) passes the '
              'paired update B, or leaves through the None arm of the lookup that fetches B\'s receiver / the arm that says B does not apply: '
              '_add: insert_entry <-> parent.add and insert_file iff non-link file; remove / remove_all: parent.remove <-> remove_file <-> remove_entry; '
@@ -91,6 +62,42 @@ def run(rep, F, ctx):
     P.after(rep, 'PAIR', 'pair:_copy:_add->insert_file', fn, suffix('>::_add'), suffix('>::insert_file'), [('true', r'^is_symlink\(')],
             '_copy: a copied non-link file gets its data stored under the new key')
     rep.floor('PAIR', 'pairing obligations', sum(1 for o in rep.obls if o.rule == 'PAIR'), 11)
+
+
+def run(rep, F, ctx):
+    cg = CallGraph(F)
+    cg.prune_never_err()
+    M, ok_only = atomic.fail_atomic(rep, F, cg)
+    atomic.who_writes(rep, F, cg, engine.load_table('who_writes.json'))
+    atomic.who_calls(rep, F, cg, engine.load_table('who_calls.json'))
+    # cwd stays absolute: the only caller of set_cwd passes an abs() result
+    rep.rule('CWD-ABS', 'every argument of MemfsGuard::set_cwd originates from Memfs::_abs (so cwd stays a clean absolute path)')
+    n_cwd = 0
+    for n in cg.names():
+        B = cg.body(n)
+        for i, t in B.calls():
+            if (callee_of(t) or '').endswith('>::set_cwd') and F.bodies.get(callee_of(t), {}).get('impl_self', '').startswith('sys::fs::memfs::vfs::MemfsGuard'):
+                n_cwd += 1
+
+                def transparent(tt):
+                    c = callee_of(tt) or ''
+                    if c.endswith('Try>::branch') or c.endswith('Clone>::clone') or c.endswith('::to_path_buf') or c.endswith('::to_owned'):
+                        return [0]
+                    return None
+                roots = B.op_origins(t['args'][1], transparent)
+                calls = [callee_of(B.term(r[1])) for r in roots if r[0] == 'call']
+                import roles
+                absfn = roles.discover(F).get('memfs_abs', '')
+                bad = [r for r in roots if r[0] == 'arg'] + [c for c in calls if c != absfn]
+                ok = bool(calls) and not bad
+                rep.add('CWD-ABS', 'cwdabs:%s' % n, 'the path stored as cwd in %s comes from _abs' % n, ok, B.loc(i),
+                        '' if ok else 'set_cwd receives a path that is not an _abs result (%s): cwd may become relative or unclean' % bad)
+    rep.floor('CWD-ABS', 'set_cwd call sites', n_cwd, 1)
+
+    pair_rules(rep, F, cg, M)
+    import siteguard as _sg
+    _t = engine.load_table('site_guards.json')
+    _sg.site_guard(rep, F, cg, _t, _t['_groups']['C03'])
     return engine.finish(
         rep, 'other', EXPLANATION,
         assumptions=['HashMap / HashSet behave as maps / sets', 'the frozen writer table lists the intended owners of each field (confirmed by reading, one reason each)'],
